@@ -36,6 +36,7 @@ const (
 	KReturn  = "return"
 	KRaise   = "raise"
 	KErrNew  = "errnew" // XErr.new("msg") as an expression (raises at construction)
+	KIter    = "iter"   // <{|i| pre; yield i if i < Int; post; recur(i + 1)}>.new(0)   (L = pre, Post = post statements)
 	KTry     = "try"    // recv.try.{|x| body}.<accessor Str: val | or | err?>  (C = default of or)
 	KProgram = "program"
 )
@@ -77,6 +78,7 @@ type N struct {
 	Method  bool
 	Chain   Chain
 	Guard   *N
+	Post    []*N // iterator literal: statements between the yield and recur
 }
 
 // Program is a generated program.
@@ -381,6 +383,18 @@ func printExpr(sb *strings.Builder, n *N, depth int) {
 			sb.WriteString(")")
 		}
 		printExpr(sb, n.B, depth)
+	case KIter:
+		sb.WriteString("<{|i|\n")
+		for _, st := range n.L {
+			printStmt(sb, st, depth+1)
+			sb.WriteString("\n")
+		}
+		fmt.Fprintf(sb, "%syield i if i < %d\n", ind(depth+1), n.Int)
+		for _, st := range n.Post {
+			printStmt(sb, st, depth+1)
+			sb.WriteString("\n")
+		}
+		fmt.Fprintf(sb, "%srecur(i + 1)\n%s}>.new(0)", ind(depth+1), ind(depth))
 	case KTry:
 		printRecv(sb, n.A, depth)
 		sb.WriteString(".try.")
